@@ -167,7 +167,14 @@ def handle (toks : List String) (impl : String) : Verdict :=
     match parseInt now, parsed with
     | some now, some raws =>
       if raws.isEmpty then badOp "no facts" else
-      { model := some (modelLine now kind raws), oracle := oracle now kind raws impl }
+      let m := modelLine now kind raws
+      let o := match oracle now kind raws impl with
+        | some w => some w
+        | none =>
+          if impl = "err" ∧ m ≠ "err" ∧ m ≠ "issuer-invalid" ∧ m ≠ "bad-op" then
+            some "a certificate that meets every condition of the statement (signature, time inside the inclusive window, key identifiers, profile, covered resources) was rejected"
+          else none
+      { model := some m, oracle := o }
     | _, _ => badOp "facts"
   | _ => badOp "unknown op"
 
